@@ -470,9 +470,15 @@ def rule_enum_strat(ctx: Ctx) -> None:
         if isinstance(n, ast.Assign) and len(n.targets) == 1 and norm(n.targets[0]) == 'grad_worker_fraction':
             for g in flow.enclosing_guards(p, f, n):
                 t = norm(g.test)
+                # the variable compared with the enum member: the strategy argument itself or a local copy of it
+                var = None
+                if isinstance(g.test, ast.Compare) and len(g.test.ops) == 1 and isinstance(g.test.ops[0], (ast.Eq, ast.Is)) and isinstance(g.test.left, ast.Name):
+                    v0 = g.test.left.id
+                    ds = p.local_defs(f, v0)
+                    if v0 in ('distributed_strategy', 'grad_worker_fraction') or (len(ds) == 1 and isinstance(ds[0], ast.Name) and ds[0].id == 'grad_worker_fraction'):
+                        var = v0
                 for mname in members:
-                    if g.polarity and t in (f'distributed_strategy == DistributedStrategy.{mname}', f'grad_worker_fraction == DistributedStrategy.{mname}',
-                                            f'distributed_strategy is DistributedStrategy.{mname}'):
+                    if g.polarity and var is not None and t in (f'{var} == DistributedStrategy.{mname}', f'{var} is DistributedStrategy.{mname}'):
                         got[mname] = (norm(n.value), n)
     for mname in members:
         g = got.get(mname)
